@@ -19,62 +19,62 @@ type catEntry struct {
 
 var catalogue = map[string]catEntry{
 	// ---- breaking ----
-	"remove-struct":                  {true, "audit.go:267 'Struct removed' (checkStructLike :278-285 'missing struct')"},
-	"rename-struct":                  {true, "audit.go:267 'Struct removed': the old name is gone (:283); DESIGN: renaming a struct is a removal"},
-	"remove-field":                   {true, "audit.go:270 'Non-optional field removed' (checkFields :392-394); only default/required fields of structs and exceptions"},
-	"retype-field":                   {true, "audit.go:269 'Field type changed' (checkFields :377, checkType :421-446, recursion :444-445)"},
-	"flip-requiredness":              {true, "audit.go:268 'Presence modifier changed from optional/default to required (or vice versa)' (:379-384)"},
-	"add-required-field":             {true, "audit.go:271 'Addition of required field' (:406-408)"},
-	"remove-enum-value":              {true, "audit.go:223 'Enum variant removed' (checkEnumValues :246-257, by numeric value)"},
-	"remove-scope":                   {true, "audit.go:110 'Scopes removed' (:126)"},
-	"rename-scope":                   {true, "audit.go:110 'Scopes removed': the old name is gone (:126)"},
-	"change-prefix":                  {true, "audit.go:111 'Scope prefix changed in any way other than renaming variables' (:131-152)"},
-	"remove-operation":               {true, "audit.go:112 'Operation removed' (:165)"},
-	"rename-operation":               {true, "audit.go:112 'Operation removed': the old name is gone (:165)"},
-	"retype-operation":               {true, "audit.go:113 'Operation type changed' (:163)"},
-	"remove-service":                 {true, "audit.go:296 'Service removed/renamed' (:320)"},
-	"rename-service":                 {true, "audit.go:296 'Service removed/renamed' (:320)"},
-	"change-extends":                 {true, "audit.go:295 'Service inheritance changed' (:312-316)"},
-	"remove-extends":                 {true, "audit.go:295 'Service inheritance changed' (:313 old != \"\" && old != new); TestBreakingChanges 'extends changed: base -> \"\"'"},
-	"remove-method":                  {true, "audit.go:297 'Method removed/renamed' (:356)"},
-	"rename-method":                  {true, "audit.go:297 'Method removed/renamed' (:356)"},
-	"flip-oneway":                    {true, "audit.go:298 'Method one-way changed' (:334-336)"},
-	"retype-return":                  {true, "audit.go:299 'Method return type change' (:338; void <-> T through the nil guard :428-433)"},
-	"retype-arg":                     {true, "audit.go:300 'Method argument type changed' (:340)"},
-	"remove-arg":                     {true, "property text 'a removed ... argument'; audit.go:340 checkFields + :392 (arguments have default requiredness, i.e. non-optional)"},
-	"retype-exception":               {true, "audit.go:301 'Method exception type changed' (:341)"},
-	"add-first-exception-to-void":    {true, "audit.go:302 'Adding an exception with a nil return value and no current exceptions' (:348-350)"},
-	"remove-all-exceptions-of-void":  {true, "audit.go:303 'Removing an exception with a nil return value and only one current exception' (:352-354); property 'an exception-set change on a void method'"},
-	"retarget-typedef":               {true, "property text 'a retyped field ... through typedefs'; audit.go:435-436 compares UnderlyingType of both sides"},
+	"remove-struct":                 {true, "audit.go:267 'Struct removed' (checkStructLike :278-285 'missing struct')"},
+	"rename-struct":                 {true, "audit.go:267 'Struct removed': the old name is gone (:283); DESIGN: renaming a struct is a removal"},
+	"remove-field":                  {true, "audit.go:270 'Non-optional field removed' (checkFields :392-394); only default/required fields of structs and exceptions"},
+	"retype-field":                  {true, "audit.go:269 'Field type changed' (checkFields :377, checkType :421-446, recursion :444-445)"},
+	"flip-requiredness":             {true, "audit.go:268 'Presence modifier changed from optional/default to required (or vice versa)' (:379-384)"},
+	"add-required-field":            {true, "audit.go:271 'Addition of required field' (:406-408)"},
+	"remove-enum-value":             {true, "audit.go:223 'Enum variant removed' (checkEnumValues :246-257, by numeric value)"},
+	"remove-scope":                  {true, "audit.go:110 'Scopes removed' (:126)"},
+	"rename-scope":                  {true, "audit.go:110 'Scopes removed': the old name is gone (:126)"},
+	"change-prefix":                 {true, "audit.go:111 'Scope prefix changed in any way other than renaming variables' (:131-152)"},
+	"remove-operation":              {true, "audit.go:112 'Operation removed' (:165)"},
+	"rename-operation":              {true, "audit.go:112 'Operation removed': the old name is gone (:165)"},
+	"retype-operation":              {true, "audit.go:113 'Operation type changed' (:163)"},
+	"remove-service":                {true, "audit.go:296 'Service removed/renamed' (:320)"},
+	"rename-service":                {true, "audit.go:296 'Service removed/renamed' (:320)"},
+	"change-extends":                {true, "audit.go:295 'Service inheritance changed' (:312-316)"},
+	"remove-extends":                {true, "audit.go:295 'Service inheritance changed' (:313 old != \"\" && old != new); TestBreakingChanges 'extends changed: base -> \"\"'"},
+	"remove-method":                 {true, "audit.go:297 'Method removed/renamed' (:356)"},
+	"rename-method":                 {true, "audit.go:297 'Method removed/renamed' (:356)"},
+	"flip-oneway":                   {true, "audit.go:298 'Method one-way changed' (:334-336)"},
+	"retype-return":                 {true, "audit.go:299 'Method return type change' (:338; void <-> T through the nil guard :428-433)"},
+	"retype-arg":                    {true, "audit.go:300 'Method argument type changed' (:340)"},
+	"remove-arg":                    {true, "property text 'a removed ... argument'; audit.go:340 checkFields + :392 (arguments have default requiredness, i.e. non-optional)"},
+	"retype-exception":              {true, "audit.go:301 'Method exception type changed' (:341)"},
+	"add-first-exception-to-void":   {true, "audit.go:302 'Adding an exception with a nil return value and no current exceptions' (:348-350)"},
+	"remove-all-exceptions-of-void": {true, "audit.go:303 'Removing an exception with a nil return value and only one current exception' (:352-354); property 'an exception-set change on a void method'"},
+	"retarget-typedef":              {true, "property text 'a retyped field ... through typedefs'; audit.go:435-436 compares UnderlyingType of both sides"},
 	// ---- compatible ----
-	"rename-field":                   {false, "audit.go:263 Warning 'Field name changed' (:389-391)"},
-	"change-default":                 {false, "audit.go:264 Warning 'Default value of field changed' (:386-388)"},
-	"add-optional-field-end":         {false, "property text 'added optional fields'; audit.go:265/271: only 'in the middle' warns (:402) and only required errors (:406)"},
-	"add-default-field-end":          {false, "DESIGN 'added optional or default fields at the end'; audit.go:271: only a *required* added field is an error (:406)"},
-	"rename-arg":                     {false, "audit.go:290 Warning 'Name of argument changed'"},
-	"add-arg-end":                    {false, "audit.go:292: adding an argument only warns when 'in the middle'; arguments have default requiredness (:406 errors on required only)"},
-	"rename-exception-field":         {false, "audit.go:291 Warning 'Name of exception changed'"},
-	"add-exception-end":              {false, "audit.go:293: adding an exception only warns when 'in the middle'; :302 restricts the error to void methods without exceptions (not generated there)"},
-	"rename-enum-variant":            {false, "audit.go:221 Warning 'Enum variant name changed' (:248-253)"},
-	"add-enum-value-end":             {false, "DESIGN 'added ... enum values'; audit.go:246 iterates over the old values only"},
-	"add-enum":                       {false, "audit.go:230 iterates over the old enums only"},
-	"change-namespace":               {false, "audit.go:172 Warning 'Namespace changed'"},
-	"remove-namespace":               {false, "audit.go:173 Warning 'Namespace removed'"},
-	"add-namespace":                  {false, "property text 'namespace ... changes'; audit.go:182 iterates over the old namespaces only"},
-	"change-const-value":             {false, "audit.go:196 Warning 'Constant value changed'"},
-	"change-const-type":              {false, "audit.go:197 Warning 'Constant type changed' (checkType with warn=true :208)"},
-	"remove-const":                   {false, "audit.go:195 Warning 'Constant removed'"},
-	"add-const":                      {false, "property text 'constant changes'; audit.go:205 iterates over the old constants only"},
-	"rename-prefix-variable":         {false, "audit.go:111 '... other than renaming variables' (:132-134)"},
-	"add-extends":                    {false, "audit.go:312 'It's fine to add inheritance, but not change it if it already exists'"},
-	"add-method-end":                 {false, "DESIGN 'added methods'; audit.go:331 iterates over the old methods only"},
-	"add-service":                    {false, "DESIGN 'added ... services'; audit.go:310 iterates over the old services only"},
-	"add-scope":                      {false, "DESIGN 'added ... scopes'; audit.go:120 iterates over the old scopes only"},
-	"add-operation":                  {false, "audit.go:160 iterates over the old operations only (only removal / retyping are listed :112-113)"},
-	"add-struct":                     {false, "audit.go:278 iterates over the old structs only"},
-	"introduce-typedef":              {false, "DESIGN 'typedef introduced ... without changing the underlying type'; audit.go:435-436 compares underlying types"},
-	"inline-typedef-use":             {false, "DESIGN 'typedef ... removed without changing the underlying type'; audit.go:435-436"},
-	"remove-typedef":                 {false, "DESIGN 'typedef ... removed without changing the underlying type' (every use inlined, declaration deleted); typedefs are not audited as declarations"},
+	"rename-field":           {false, "audit.go:263 Warning 'Field name changed' (:389-391)"},
+	"change-default":         {false, "audit.go:264 Warning 'Default value of field changed' (:386-388)"},
+	"add-optional-field-end": {false, "property text 'added optional fields'; audit.go:265/271: only 'in the middle' warns (:402) and only required errors (:406)"},
+	"add-default-field-end":  {false, "DESIGN 'added optional or default fields at the end'; audit.go:271: only a *required* added field is an error (:406)"},
+	"rename-arg":             {false, "audit.go:290 Warning 'Name of argument changed'"},
+	"add-arg-end":            {false, "audit.go:292: adding an argument only warns when 'in the middle'; arguments have default requiredness (:406 errors on required only)"},
+	"rename-exception-field": {false, "audit.go:291 Warning 'Name of exception changed'"},
+	"add-exception-end":      {false, "audit.go:293: adding an exception only warns when 'in the middle'; :302 restricts the error to void methods without exceptions (not generated there)"},
+	"rename-enum-variant":    {false, "audit.go:221 Warning 'Enum variant name changed' (:248-253)"},
+	"add-enum-value-end":     {false, "DESIGN 'added ... enum values'; audit.go:246 iterates over the old values only"},
+	"add-enum":               {false, "audit.go:230 iterates over the old enums only"},
+	"change-namespace":       {false, "audit.go:172 Warning 'Namespace changed'"},
+	"remove-namespace":       {false, "audit.go:173 Warning 'Namespace removed'"},
+	"add-namespace":          {false, "property text 'namespace ... changes'; audit.go:182 iterates over the old namespaces only"},
+	"change-const-value":     {false, "audit.go:196 Warning 'Constant value changed'"},
+	"change-const-type":      {false, "audit.go:197 Warning 'Constant type changed' (checkType with warn=true :208)"},
+	"remove-const":           {false, "audit.go:195 Warning 'Constant removed'"},
+	"add-const":              {false, "property text 'constant changes'; audit.go:205 iterates over the old constants only"},
+	"rename-prefix-variable": {false, "audit.go:111 '... other than renaming variables' (:132-134)"},
+	"add-extends":            {false, "audit.go:312 'It's fine to add inheritance, but not change it if it already exists'"},
+	"add-method-end":         {false, "DESIGN 'added methods'; audit.go:331 iterates over the old methods only"},
+	"add-service":            {false, "DESIGN 'added ... services'; audit.go:310 iterates over the old services only"},
+	"add-scope":              {false, "DESIGN 'added ... scopes'; audit.go:120 iterates over the old scopes only"},
+	"add-operation":          {false, "audit.go:160 iterates over the old operations only (only removal / retyping are listed :112-113)"},
+	"add-struct":             {false, "audit.go:278 iterates over the old structs only"},
+	"introduce-typedef":      {false, "DESIGN 'typedef introduced ... without changing the underlying type'; audit.go:435-436 compares underlying types"},
+	"inline-typedef-use":     {false, "DESIGN 'typedef ... removed without changing the underlying type'; audit.go:435-436"},
+	"remove-typedef":         {false, "DESIGN 'typedef ... removed without changing the underlying type' (every use inlined, declaration deleted); typedefs are not audited as declarations"},
 }
 
 // ectx is the state of one script application.
@@ -159,7 +159,17 @@ func enumerate(p *idl.Program, rng *rand.Rand) []*edit {
 			}
 		}
 	}
-	return en.out
+	// a site is applicable iff the edit applies to the base program and leaves
+	// it valid (e.g. an inherited method name may clash further down the
+	// inheritance chain, an inlined alias may need an include the file lacks)
+	var ok []*edit
+	for _, e := range en.out {
+		c := &ectx{p: p.Clone()}
+		if e.apply(c) && validateProgram(c.p) == nil {
+			ok = append(ok, e)
+		}
+	}
+	return ok
 }
 
 // ---------------------------------------------------------------------------
